@@ -97,11 +97,16 @@ def text_stream(seed, n, texts=(0, 2, 10), prog=None, few_cells=False, toggles=F
                 if pool and r.random() < 0.8: return (r.choice(pool) << 8) | r.choice(pool)
                 return g.word()
             e = [g.err(0.9), g.err(0.45), g.err(0.45), g.err(0.45)]
-            out.append(P(g.pi(), b, w(), w(), *e))
+            if getattr(g, "recent", None) and r.random() < 0.12:
+                out.append(g.replay())      # A … B … A: an earlier group again after other traffic for the same cells
+            else:
+                out.append(g.remember(P(g.pi(), b, w(), w(), *e)))
         elif x < 0.97:
             out += settings()[: r.randrange(1, 9)]
         elif x < 0.985:
             out.append("clear")
+            if getattr(g, "recent", None) and r.random() < 0.6:
+                out += [g.replay() for _ in range(r.randrange(1, 4))]
         else:
             out.append(g.group())
     return out
